@@ -955,10 +955,41 @@ impl Property for C12 {
         C12 { selftest: selftest() }
     }
     fn n_cases(&self, tier: Tier) -> u64 {
-        tier.pick(200_000, 4_000_000)
+        tier.pick(600_000, 4_000_000)
     }
     fn chunk(&self, _tier: Tier) -> u64 {
         1000
+    }
+    /// "…admit the current time": with the freeze of hook H4 lifted, the clock the fang compares the claims with is the
+    /// wall clock's whole second — sampled densely over 1.3 s (every phase of a second, at least one second border).
+    fn enumerate(&self, _tier: Tier, obs: &mut Obs) -> Option<EnumReport> {
+        use std::time::{Duration, Instant, SystemTime, UNIX_EPOCH};
+        ohkami::util::__verif_clock__::freeze(0);
+        let secs = || SystemTime::now().duration_since(UNIX_EPOCH).map(|d| d.as_secs()).unwrap_or(0);
+        let t0 = Instant::now();
+        let mut n = 0u64;
+        let mut seen = std::collections::BTreeSet::new();
+        while t0.elapsed() < Duration::from_millis(1300) {
+            let a = secs();
+            let t = ohkami::util::unix_timestamp();
+            let b = secs();
+            n += 1;
+            // (a > b: the wall clock was stepped back between the two samples — no verdict)
+            if a <= b && !(a <= t && t <= b) {
+                obs.fail("clock:unix_timestamp-differs-from-wall-clock", format!("unix_timestamp() = {t} while the wall clock read {a} before and {b} after the call ({:?} after the first sample)", t0.elapsed()));
+                break;
+            }
+            seen.insert(t);
+            std::thread::sleep(Duration::from_micros(150));
+        }
+        drive::freeze_clock();
+        Some(EnumReport {
+            evaluations: n,
+            distinct_nontrivial: seen.len() as u64,
+            exhaustive: false,
+            note: format!("clock: {n} samples of unix_timestamp() against the wall clock over 1.3 s, {} distinct seconds", seen.len()),
+            samples: vec![serde_json::json!({"clock_samples": n, "seconds_seen": seen.iter().collect::<Vec<_>>()})],
+        })
     }
     fn in_domain(&self, case: &Case) -> bool {
         let header_ok = match &case.base {
